@@ -36,7 +36,7 @@ def nsp_rho_basline(X0T, e=None, dedx=None):
         dedx = np.zeros_like(X0T)
     nspin = X0T.shape[0]
     e[:] += X0T[:, 0].mean(0)
-    dedx[0, :] += 1.0 / nspin
+    dedx[:, 0] += 1.0 / nspin
     return e, dedx
 
 
